@@ -137,3 +137,635 @@ Proof. unfold v_reduce. rewrite reduce_spec. reflexivity. Qed.
 End Whole.
 
 End Reduce.
+
+(* ====================================================================== *)
+(* 3. reduceAlong                                                         *)
+(* ====================================================================== *)
+
+(* ---------- deleting / inserting a position ---------- *)
+Definition del {X} (k : nat) (l : list X) : list X := firstn k l ++ skipn (S k) l.
+Definition ins {X} (k : nat) (v : X) (l : list X) : list X := firstn k l ++ v :: skipn k l.
+
+Lemma squeezeDims_del dim ds : squeezeDims dim ds = del dim ds.
+Proof. reflexivity. Qed.
+
+Lemma del_0 {X} (a : X) l : del 0 (a :: l) = l.
+Proof. reflexivity. Qed.
+Lemma del_S {X} k (a : X) l : del (S k) (a :: l) = a :: del k l.
+Proof. reflexivity. Qed.
+Lemma ins_0 {X} (v : X) l : ins 0 v l = v :: l.
+Proof. unfold ins. destruct l; reflexivity. Qed.
+Lemma ins_S {X} k (v a : X) l : ins (S k) v (a :: l) = a :: ins k v l.
+Proof. reflexivity. Qed.
+
+Lemma del_length {X} k (l : list X) : k < length l -> length (del k l) = length l - 1.
+Proof.
+  intros H. unfold del. rewrite app_length, firstn_length, skipn_length. lia.
+Qed.
+
+Lemma ins_length {X} k (v : X) l : length (ins k v l) = S (length l).
+Proof.
+  unfold ins. rewrite app_length. cbn [length]. rewrite firstn_length, skipn_length. lia.
+Qed.
+
+Lemma del_ins {X} k (v : X) : forall l, k <= length l -> del k (ins k v l) = l.
+Proof.
+  induction k as [|k IH]; intros l H.
+  - rewrite ins_0. reflexivity.
+  - destruct l as [|a l]; [cbn in H; lia|]. rewrite ins_S, del_S, IH by (cbn in H; lia). reflexivity.
+Qed.
+
+Lemma nth_ins {X} k (v d : X) : forall l, k <= length l -> nth k (ins k v l) d = v.
+Proof.
+  induction k as [|k IH]; intros l H.
+  - rewrite ins_0. reflexivity.
+  - destruct l as [|a l]; [cbn in H; lia|]. rewrite ins_S. cbn [nth]. apply IH. cbn in H; lia.
+Qed.
+
+Lemma ins_del {X} k (d : X) : forall l, k < length l -> ins k (nth k l d) (del k l) = l.
+Proof.
+  induction k as [|k IH]; intros l H.
+  - destruct l as [|a l]; [cbn in H; lia|]. rewrite del_0, ins_0. reflexivity.
+  - destruct l as [|a l]; [cbn in H; lia|]. rewrite del_S, ins_S. cbn [nth]. rewrite IH by (cbn in H; lia).
+    reflexivity.
+Qed.
+
+Lemma rev_del {X} dim (l : list X) : dim < length l -> del (length l - 1 - dim) (rev l) = rev (del dim l).
+Proof.
+  intros H. unfold del. rewrite firstn_rev, skipn_rev, rev_app_distr.
+  replace (length l - (length l - 1 - dim)) with (S dim) by lia.
+  replace (length l - S (length l - 1 - dim)) with dim by lia. reflexivity.
+Qed.
+
+Lemma rev_ins {X} dim (v : X) (l : list X) : dim <= length l -> ins (length l - dim) v (rev l) = rev (ins dim v l).
+Proof.
+  intros H. unfold ins. rewrite firstn_rev, skipn_rev, rev_app_distr. cbn [rev]. rewrite <- app_assoc. cbn [app].
+  replace (length l - (length l - dim)) with dim by lia. reflexivity.
+Qed.
+
+Lemma Forall_del {X} (P : X -> Prop) k : forall l, Forall P l -> Forall P (del k l).
+Proof.
+  induction k as [|k IH]; intros l H; destruct H as [|a l Ha Hl]; try constructor.
+  - rewrite del_0. exact Hl.
+  - exact Ha.
+  - apply IH, Hl.
+Qed.
+
+(* ---------- the odometer (states least-significant digit first) ---------- *)
+Lemma prodn_cons' d ds : prodn (d :: ds) = d * prodn ds.
+Proof. reflexivity. Qed.
+
+Lemma prodn_app' ds1 ds2 : prodn (ds1 ++ ds2) = prodn ds1 * prodn ds2.
+Proof.
+  induction ds1 as [|d ds1 IH]; cbn [app]; [cbn; lia|]. rewrite !prodn_cons', IH. lia.
+Qed.
+
+Lemma prodn_rev' ds : prodn (rev ds) = prodn ds.
+Proof.
+  induction ds as [|d ds IH]; [reflexivity|]. cbn [rev]. rewrite prodn_app', IH, !prodn_cons'. cbn. lia.
+Qed.
+
+Fixpoint oval (rd st : list nat) : nat :=
+  match rd, st with
+  | d :: rd', x :: st' => x + d * oval rd' st'
+  | _, _ => 0
+  end.
+
+Lemma incr_valid rd st : validIdx rd st -> validIdx rd (incr rd st).
+Proof.
+  intros H. induction H as [|x d st rd Hx Hr IH]; cbn [incr]; [constructor|].
+  destruct (S x <? d) eqn:E.
+  - constructor; [apply Nat.ltb_lt in E; exact E|exact Hr].
+  - constructor; [lia|exact IH].
+Qed.
+
+Lemma oval_lt rd st : validIdx rd st -> oval rd st < prodn rd.
+Proof.
+  intros H. induction H as [|x d st rd Hx _ IH]; [cbn; lia|]. cbn [oval]. rewrite prodn_cons'. nia.
+Qed.
+
+Lemma incr_val rd st : validIdx rd st -> S (oval rd st) < prodn rd -> oval rd (incr rd st) = S (oval rd st).
+Proof.
+  intros H. induction H as [|x d st rd Hx Hr IH]; intros Hb; [cbn in Hb; lia|].
+  cbn [incr]. destruct (S x <? d) eqn:E; cbn [oval]; [reflexivity|].
+  apply Nat.ltb_ge in E. assert (Ex : x = d - 1) by lia.
+  cbn [oval] in Hb. rewrite prodn_cons' in Hb.
+  rewrite IH by nia. nia.
+Qed.
+
+Lemma oval_inj rd : forall s1 s2, validIdx rd s1 -> validIdx rd s2 -> oval rd s1 = oval rd s2 -> s1 = s2.
+Proof.
+  induction rd as [|d rd IH]; intros s1 s2 H1 H2 E.
+  - apply validIdx_nil in H1, H2. congruence.
+  - apply validIdx_cons in H1 as (x1 & r1 & -> & Hx1 & Hr1).
+    apply validIdx_cons in H2 as (x2 & r2 & -> & Hx2 & Hr2).
+    cbn [oval] in E.
+    assert (Ex : x1 = x2).
+    { assert (E1 : (x1 + d * oval rd r1) mod d = x1).
+      { rewrite Nat.mul_comm, Nat.mod_add by lia. apply Nat.mod_small, Hx1. }
+      assert (E2 : (x2 + d * oval rd r2) mod d = x2).
+      { rewrite Nat.mul_comm, Nat.mod_add by lia. apply Nat.mod_small, Hx2. }
+      congruence. }
+    subst x2. f_equal. apply IH; [assumption|assumption|]. nia.
+Qed.
+
+Lemma iter_incr_val rd n : forall st, validIdx rd st -> oval rd st + n < prodn rd ->
+  validIdx rd (iter _ (incr rd) n st) /\ oval rd (iter _ (incr rd) n st) = oval rd st + n.
+Proof.
+  induction n as [|n IH]; intros st Hv Hb; cbn [iter].
+  - split; [exact Hv|lia].
+  - destruct (IH (incr rd st)) as [H1 H2].
+    + apply incr_valid, Hv.
+    + rewrite incr_val by (assumption || lia). lia.
+    + split; [exact H1|]. rewrite H2, incr_val by (assumption || lia). lia.
+Qed.
+
+Lemma oval_zeros rd : oval rd (repeat 0 (length rd)) = 0.
+Proof. induction rd as [|d rd IH]; [reflexivity|]. cbn [length repeat oval]. rewrite IH. lia. Qed.
+
+Lemma validIdx_zeros rd : Forall (fun d => 0 < d) rd -> validIdx rd (repeat 0 (length rd)).
+Proof. intros H. induction H as [|d rd Hd _ IH]; [constructor|]. cbn [length repeat]. constructor; assumption. Qed.
+
+Lemma validIdx_pos ds idx : validIdx ds idx -> Forall (fun d => 0 < d) ds.
+Proof. intros H. induction H as [|x d st rd Hx _ IH]; constructor; [lia|assumption]. Qed.
+
+(* from all zeros, [oval rd st] steps reach [st] *)
+Lemma iter_incr_oval rd st : validIdx rd st -> iter _ (incr rd) (oval rd st) (repeat 0 (length rd)) = st.
+Proof.
+  intros Hv. pose proof (validIdx_zeros rd (validIdx_pos _ _ Hv)) as Hz.
+  destruct (iter_incr_val rd (oval rd st) _ Hz) as [H1 H2].
+  - rewrite oval_zeros. cbn. apply oval_lt, Hv.
+  - apply (oval_inj rd); [exact H1|exact Hv|]. rewrite H2, oval_zeros. reflexivity.
+Qed.
+
+Lemma oval_app r1 : forall s1 r2 s2, length s1 = length r1 ->
+  oval (r1 ++ r2) (s1 ++ s2) = oval r1 s1 + prodn r1 * oval r2 s2.
+Proof.
+  induction r1 as [|d r1 IH]; intros [|x s1] r2 s2 Hl; cbn in Hl; try discriminate.
+  - cbn. lia.
+  - cbn [app oval]. rewrite IH by lia. rewrite prodn_cons'. lia.
+Qed.
+
+Lemma oval_rev_flatIdx ds : forall idx, validIdx ds idx -> oval (rev ds) (rev idx) = flatIdx ds idx.
+Proof.
+  induction ds as [|d ds IH]; intros idx Hv.
+  - apply validIdx_nil in Hv; subst. reflexivity.
+  - apply validIdx_cons in Hv as (i & r & -> & Hi & Hr). cbn [rev flatIdx].
+    rewrite oval_app by (rewrite !rev_length; apply validIdx_length, Hr).
+    rewrite IH by exact Hr. rewrite prodn_rev'. cbn [oval]. lia.
+Qed.
+
+Lemma validIdx_rev ds idx : validIdx ds idx -> validIdx (rev ds) (rev idx).
+Proof.
+  intros H. induction H as [|x d st rd Hx _ IH]; [constructor|]. cbn [rev].
+  apply Forall2_app; [exact IH|constructor; [exact Hx|constructor]].
+Qed.
+
+(* [incr_skip None] is [incr]; [incr_skip (Some k)] is [incr] on the other digits *)
+Lemma incr_skip_None rd : forall st, incr_skip None rd st = incr rd st.
+Proof.
+  induction rd as [|d rd IH]; intros [|x st]; cbn [incr_skip incr option_map]; try reflexivity.
+  rewrite IH. reflexivity.
+Qed.
+
+Lemma incr_skip_del k : forall rd st, k < length rd -> length st = length rd ->
+  incr_skip (Some k) rd st = ins k (nth k st 0) (incr (del k rd) (del k st)).
+Proof.
+  induction k as [|k IH]; intros [|d rd] [|x st] Hk Hl; cbn in Hk, Hl; try lia.
+  - cbn [incr_skip nth]. rewrite !del_0, ins_0, incr_skip_None. reflexivity.
+  - cbn [incr_skip nth option_map pred]. rewrite !del_S. cbn [incr].
+    destruct (S x <? d) eqn:E; rewrite ins_S.
+    + rewrite ins_del by lia. reflexivity.
+    + rewrite IH by lia. reflexivity.
+Qed.
+
+Lemma incr_length rd : forall st, length st = length rd -> length (incr rd st) = length rd.
+Proof.
+  induction rd as [|d rd IH]; intros [|x st] H; cbn in H; try lia; [reflexivity|].
+  cbn [incr]. destruct (S x <? d); cbn [length]; [lia|]. rewrite IH by lia. reflexivity.
+Qed.
+
+(* ---------- slicing with the ranges [redRanges] ---------- *)
+
+(* [redRanges] with the position counter starting at [b] *)
+Definition rrF (b dim : nat) (ds idx : list nat) : list range :=
+  map (fun p : nat * (nat * nat) =>
+         let '(i, (x, d)) := p in if i =? dim then (0, d) else (x, S x))
+      (combine (seq b (length ds)) (combine idx ds)).
+
+Lemma redRanges_rrF dim ds idx : redRanges dim ds idx = rrF 0 dim ds idx.
+Proof. reflexivity. Qed.
+
+Lemma rrF_cons b dim d ds x idx :
+  rrF b dim (d :: ds) (x :: idx) = (if b =? dim then (0, d) else (x, S x)) :: rrF (S b) dim ds idx.
+Proof. reflexivity. Qed.
+
+Lemma rrF_length b dim : forall ds idx, length idx = length ds -> length (rrF b dim ds idx) = length ds.
+Proof.
+  intros ds idx H. unfold rrF. rewrite map_length, !combine_length, seq_length. lia.
+Qed.
+
+Lemma completeIndex_rrF dim : forall ds b idx, length idx = length ds ->
+  completeIndex (rrF b dim ds idx) ds = rrF b dim ds idx.
+Proof.
+  induction ds as [|d ds IH]; intros b [|x idx] H; cbn in H; try lia; [reflexivity|].
+  rewrite rrF_cons. cbn [completeIndex]. rewrite IH by lia.
+  destruct (b =? dim).
+  - destruct d; reflexivity.
+  - cbn [Nat.eqb]. rewrite andb_false_r. reflexivity.
+Qed.
+
+Lemma rrF_dims dim : forall ds b idx, length idx = length ds ->
+  map (fun r : range => snd r - fst r) (rrF b dim ds idx)
+  = map (fun i => if i =? dim then nth (i - b) ds 0 else 1) (seq b (length ds)).
+Proof.
+  induction ds as [|d ds IH]; intros b [|x idx] H; cbn in H; try lia; [reflexivity|].
+  rewrite rrF_cons. cbn [map length seq]. f_equal.
+  - destruct (b =? dim); cbn [fst snd]; [rewrite Nat.sub_diag; cbn; lia|lia].
+  - rewrite IH by lia. apply map_ext_in. intros i Hi. apply in_seq in Hi.
+    destruct (i =? dim); [|reflexivity].
+    replace (i - b) with (S (i - S b)) by lia. reflexivity.
+Qed.
+
+Section Slice.
+Variable A : Type.
+Implicit Types (x y : nd A).
+
+Fixpoint nest (n : nat) (a : A) : nd A := match n with O => Sc a | S n' => Vec [nest n' a] end.
+
+Lemma flat_nest n a : flat (nest n a) = [a].
+Proof. induction n as [|n IH]; [reflexivity|]. cbn [nest]. rewrite flat_Vec. cbn. rewrite IH. reflexivity. Qed.
+
+Lemma sliceData_wfnd : forall (index : list range) x y,
+  sliceData index x = Some y -> wfnd (map (fun r : range => snd r - fst r) index) y.
+Proof.
+  induction index as [|[f t] index IH]; intros x y H; cbn [sliceData] in H.
+  - destruct x as [a|l]; cbn in H; [|discriminate]. inversion H; subst. exact I.
+  - destruct x as [a|l]; cbn [asV obind] in H; [discriminate|].
+    destruct (mapM _ (seq 0 (t - f))) as [out|] eqn:E; cbn [obind] in H; [|discriminate].
+    inversion H; subst. cbn [map wfnd fst snd]. split.
+    + rewrite (mapM_length _ _ _ E). apply seq_length.
+    + apply Forall_forall. intros z Hz. apply In_nth_error in Hz as (i & Hi).
+      assert (Hlen : i < length out) by (apply nth_error_Some; congruence).
+      rewrite (mapM_length _ _ _ E), seq_length in Hlen.
+      destruct (mapM_seq_inv _ _ _ E) as [_ Hn]. destruct (Hn i Hlen) as (z' & Hz' & Hf).
+      rewrite Hi in Hz'. inversion Hz'; subst z'.
+      destruct (nth_error l (i + f)) as [r|]; cbn [obind] in Hf; [|discriminate].
+      eapply IH; eauto.
+Qed.
+
+Lemma sliceData_unit l i y rest : nth_error l i = Some y ->
+  sliceData ((i, S i) :: rest) (Vec l) = obind (sliceData rest y) (fun y' : nd A => Some (Vec [y'])).
+Proof.
+  intros H. cbn [sliceData asV obind]. replace (S i - i) with 1 by lia. cbn [seq mapM Nat.add].
+  rewrite H. cbn [obind]. destruct (sliceData rest y); reflexivity.
+Qed.
+
+Lemma sliceData_full l d rest :
+  sliceData ((0, d) :: rest) (Vec l)
+  = obind (mapM (fun i => do r <- nth_error l i; sliceData rest r) (seq 0 d)) (fun out : list (nd A) => Some (Vec out)).
+Proof.
+  cbn [sliceData asV obind]. rewrite Nat.sub_0_r.
+  rewrite (mapM_ext _ (fun i => do r <- nth_error l i; sliceData rest r)); [reflexivity|].
+  intros i _. rewrite Nat.add_0_r. reflexivity.
+Qed.
+
+(* below the reduced dimension: unit ranges select one element *)
+Lemma sliceData_select dim : forall ds b idx x, dim < b -> wfnd ds x -> validIdx ds idx ->
+  exists a, get x idx = Some a /\ sliceData (rrF b dim ds idx) x = Some (nest (length ds) a).
+Proof.
+  induction ds as [|d ds IH]; intros b idx x Hb Hx Hv.
+  - apply validIdx_nil in Hv; subst. apply wfnd_nil in Hx as (a & ->). exists a. split; reflexivity.
+  - apply validIdx_cons in Hv as (i & r & -> & Hi & Hr). apply wfnd_cons in Hx as (l & -> & Hl & Hf).
+    destruct (nth_error l i) as [y|] eqn:E; [|apply nth_error_None in E; lia].
+    assert (Hy : wfnd ds y) by (rewrite Forall_forall in Hf; apply Hf; eapply nth_error_In; eauto).
+    destruct (IH (S b) r y ltac:(lia) Hy Hr) as (a & Ha & Hs).
+    exists a. rewrite get_cons, E. split; [exact Ha|].
+    rewrite rrF_cons. replace (b =? dim) with false by (symmetry; apply Nat.eqb_neq; lia).
+    rewrite (sliceData_unit _ _ _ _ E), Hs. reflexivity.
+Qed.
+
+Lemma flat_list_map_nest n (h : nat -> A) l : flat_list A (map (fun i => nest n (h i)) l) = map h l.
+Proof. induction l as [|a l IH]; [reflexivity|]. cbn [map flat_list]. rewrite flat_nest, IH. reflexivity. Qed.
+
+(* the fibre: position [b + j] is copied in full, all others are selected.  [idx] is an index
+   of the shape without position j; the (ignored) digit [v] is inserted at position j *)
+Lemma sliceData_fibre (dflt : A) : forall j b ds idx x v,
+  wfnd ds x -> j < length ds -> validIdx (del j ds) idx ->
+  exists y, sliceData (rrF b (b + j) ds (ins j v idx)) x = Some y /\
+    map Some (flat y) = map (fun k => get x (ins j k idx)) (seq 0 (nth j ds 0)).
+Proof.
+  induction j as [|j IH]; intros b ds idx x v Hx Hj Hv.
+  - destruct ds as [|d ds]; [cbn in Hj; lia|]. rewrite del_0 in Hv.
+    apply wfnd_cons in Hx as (l & -> & Hl & Hf). rewrite ins_0, rrF_cons, Nat.add_0_r, Nat.eqb_refl.
+    rewrite sliceData_full. cbn [nth].
+    set (h := fun i => match get (Vec l) (i :: idx) with Some a => a | None => dflt end).
+    assert (Hrow : forall i, i < d ->
+              (do r <- nth_error l i; sliceData (rrF (S b) b ds idx) r) = Some (nest (length ds) (h i))
+              /\ get (Vec l) (i :: idx) = Some (h i)).
+    { intros i Hi. destruct (nth_error l i) as [y|] eqn:E; [|apply nth_error_None in E; lia].
+      assert (Hy : wfnd ds y) by (rewrite Forall_forall in Hf; apply Hf; eapply nth_error_In; eauto).
+      destruct (sliceData_select b ds (S b) idx y ltac:(lia) Hy Hv) as (a & Ha & Hs).
+      unfold h. rewrite get_cons, E, Ha. cbn [obind]. split; [exact Hs|reflexivity]. }
+    rewrite (mapM_seq_some _ (fun i => nest (length ds) (h i))) by (intros i Hi; apply Hrow, Hi).
+    cbn [obind]. eexists; split; [reflexivity|].
+    rewrite flat_Vec, flat_list_map_nest, map_map. apply map_ext_in. intros i Hi. apply in_seq in Hi.
+    rewrite ins_0. symmetry. apply Hrow. lia.
+  - destruct ds as [|d ds]; [cbn in Hj; lia|]. rewrite del_S in Hv.
+    apply validIdx_cons in Hv as (i & r & -> & Hi & Hr). apply wfnd_cons in Hx as (l & -> & Hl & Hf).
+    destruct (nth_error l i) as [y|] eqn:E; [|apply nth_error_None in E; lia].
+    assert (Hy : wfnd ds y) by (rewrite Forall_forall in Hf; apply Hf; eapply nth_error_In; eauto).
+    destruct (IH (S b) ds r y v Hy ltac:(cbn in Hj; lia) Hr) as (z & Hz & Hfl).
+    rewrite ins_S, rrF_cons. replace (b =? b + S j) with false by (symmetry; apply Nat.eqb_neq; lia).
+    rewrite (sliceData_unit _ _ _ _ E). replace (b + S j) with (S b + j) by lia. rewrite Hz. cbn [obind].
+    eexists; split; [reflexivity|]. rewrite flat_Vec. cbn [flat_list]. rewrite app_nil_r, Hfl. cbn [nth].
+    apply map_ext. intros k. rewrite ins_S, get_cons, E. reflexivity.
+Qed.
+
+End Slice.
+
+Lemma rev_repeat {X} (a : X) n : rev (repeat a n) = repeat a n.
+Proof.
+  induction n as [|n IH]; [reflexivity|]. cbn [repeat rev]. rewrite IH. symmetry. apply repeat_cons.
+Qed.
+
+Lemma ins_repeat {X} (a : X) k : forall m, k <= m -> ins k a (repeat a m) = repeat a (S m).
+Proof.
+  induction k as [|k IH]; intros m H.
+  - rewrite ins_0. reflexivity.
+  - destruct m as [|m]; [lia|]. cbn [repeat]. rewrite ins_S, IH by lia. reflexivity.
+Qed.
+
+Section Along.
+Context {A : Type} {SA : Scalar A}.
+Notation T := (tensor A).
+Variables (rd : reducer) (t : T) (dim : nat).
+Hypothesis Hw : wf t.
+Hypothesis Hdim : dim < length (dims t).
+
+Local Notation ds := (dims t).
+Local Notation sds := (squeezeDims dim (dims t)).
+Local Notation kk := (length (dims t) - 1 - dim).
+Local Notation next := (incr_skip (Some (length (dims t) - 1 - dim)) (rev (dims t))).
+
+Lemma sds_length : length sds = length ds - 1.
+Proof. rewrite squeezeDims_del. apply del_length, Hdim. Qed.
+
+Lemma sds_pos : Forall (fun d => 0 < d) sds.
+Proof. rewrite squeezeDims_del. apply Forall_del, Hw. Qed.
+
+(* the fibre of [idx] along [dim], as a tensor and as a list *)
+Lemma slice_fibre idx v : validIdx sds idx ->
+  exists row, slice t (redRanges dim ds (ins dim v idx)) = Some row /\
+    dims row = map (fun i => if i =? dim then nth dim ds 0 else 1) (seq 0 (length ds)) /\
+    wf row /\
+    map Some (flat (data row)) = map (fun k => get (data t) (ins dim k idx)) (seq 0 (nth dim ds 0)).
+Proof.
+  intros Hv. pose proof (validIdx_length _ _ Hv) as Hl. rewrite sds_length in Hl.
+  assert (Hli : length (ins dim v idx) = length ds) by (rewrite ins_length; lia).
+  unfold slice. rewrite redRanges_rrF, completeIndex_rrF by exact Hli.
+  destruct Hw as [Hwd Hpos].
+  destruct (sliceData_fibre A s0 dim 0 ds idx (data t) v Hwd Hdim Hv) as (y & Hy & Hfl).
+  cbn [Nat.add] in Hy. unfold copiedSliceOf. rewrite Hy. cbn [obind].
+  eexists; split; [reflexivity|]. cbn [dims data].
+  assert (Ed : map (fun r : range => snd r - fst r) (rrF 0 dim ds (ins dim v idx))
+               = map (fun i => if i =? dim then nth dim ds 0 else 1) (seq 0 (length ds))).
+  { rewrite rrF_dims by exact Hli. apply map_ext. intros i. destruct (i =? dim) eqn:E; [|reflexivity].
+    apply Nat.eqb_eq in E. subst i. rewrite Nat.sub_0_r. reflexivity. }
+  split; [exact Ed|]. split; [|exact Hfl]. split; cbn [dims data].
+  - apply (sliceData_wfnd A _ _ _ Hy).
+  - assert (G : forall l, l = map (fun i => if i =? dim then nth dim ds 0 else 1) (seq 0 (length ds)) ->
+                         Forall (fun d => 0 < d) l).
+    { intros l ->. apply Forall_forall. intros d Hd. apply in_map_iff in Hd as (i & <- & _).
+      destruct (i =? dim); [|lia]. apply (proj1 (Forall_nth _ _) Hpos). exact Hdim. }
+    apply G. exact Ed.
+Qed.
+
+Definition redOut (s : list nat) : A :=
+  match (do row <- slice t (redRanges dim ds (rev s)); reduce rd row) with Some a => a | None => s0 end.
+
+Definition redInv (s : list nat) : Prop := exists idx, validIdx sds idx /\ s = rev (ins dim 0 idx).
+
+(* one step of the generator's odometer = one step of the plain odometer over the squeezed shape *)
+Lemma next_step idx : validIdx sds idx ->
+  next (rev (ins dim 0 idx)) = rev (ins dim 0 (rev (incr (rev sds) (rev idx)))).
+Proof.
+  intros Hv. pose proof (validIdx_length _ _ Hv) as Hl. rewrite sds_length in Hl.
+  rewrite incr_skip_del by (rewrite ?rev_length, ?ins_length; lia).
+  rewrite <- (rev_ins dim 0 idx) by lia. replace (length idx - dim) with kk by lia.
+  rewrite nth_ins by (rewrite rev_length; lia).
+  rewrite del_ins by (rewrite rev_length; lia).
+  rewrite rev_del by exact Hdim. rewrite <- squeezeDims_del.
+  set (w := incr (rev sds) (rev idx)).
+  assert (Hwl : length w = length ds - 1).
+  { unfold w. rewrite incr_length; rewrite !rev_length; [apply sds_length|rewrite sds_length; exact Hl]. }
+  rewrite <- (rev_involutive w) at 1.
+  rewrite <- (rev_ins dim 0 (rev w)) by (rewrite rev_length; lia).
+  rewrite rev_length, Hwl. reflexivity.
+Qed.
+
+Lemma incr_valid_rev idx : validIdx sds idx -> validIdx sds (rev (incr (rev sds) (rev idx))).
+Proof.
+  intros Hv. rewrite <- (rev_involutive sds) at 1. apply validIdx_rev, incr_valid, validIdx_rev, Hv.
+Qed.
+
+Lemma iter_next n : forall idx, validIdx sds idx ->
+  iter _ next n (rev (ins dim 0 idx)) = rev (ins dim 0 (rev (iter _ (incr (rev sds)) n (rev idx)))).
+Proof.
+  induction n as [|n IH]; intros idx Hv; cbn [iter].
+  - rewrite rev_involutive. reflexivity.
+  - rewrite next_step by exact Hv. rewrite IH by (apply incr_valid_rev, Hv).
+    rewrite rev_involutive. reflexivity.
+Qed.
+
+Lemma linInit_ins : linInit ds = rev (ins dim 0 (repeat 0 (length sds))).
+Proof.
+  unfold linInit. rewrite ins_repeat by (rewrite sds_length; lia). rewrite rev_repeat, sds_length.
+  f_equal. lia.
+Qed.
+
+Lemma iter_next_flatIdx idx : validIdx sds idx ->
+  iter _ next (flatIdx sds idx) (linInit ds) = rev (ins dim 0 idx).
+Proof.
+  intros Hv. rewrite linInit_ins.
+  rewrite iter_next by (apply validIdx_zeros, sds_pos).
+  rewrite rev_repeat, <- (rev_length sds), <- oval_rev_flatIdx by exact Hv.
+  rewrite iter_incr_oval by (apply validIdx_rev, Hv). rewrite rev_involutive. reflexivity.
+Qed.
+
+Lemma redGen_step s : redInv s -> redGen rd dim t s = Some (Sc (redOut s), next s).
+Proof.
+  intros (idx & Hv & ->). unfold redGen, redOut. rewrite rev_involutive.
+  destruct (slice_fibre idx 0 Hv) as (row & Hs & _ & Hwr & _). rewrite Hs. cbn [obind].
+  rewrite (reduce_spec row Hwr). reflexivity.
+Qed.
+
+Lemma redInv_next s : redInv s -> redInv (next s).
+Proof.
+  intros (idx & Hv & ->). exists (rev (incr (rev sds) (rev idx))). split.
+  - apply incr_valid_rev, Hv.
+  - apply next_step, Hv.
+Qed.
+
+Lemma redInv_init : redInv (linInit ds).
+Proof.
+  exists (repeat 0 (length sds)). split; [apply validIdx_zeros, sds_pos|apply linInit_ins].
+Qed.
+
+Theorem reduceAlong_spec :
+  exists r, reduceAlong rd t dim = Some r /\ dims r = squeezeDims dim (dims t) /\ wf r /\
+    forall idx, validIdx (squeezeDims dim (dims t)) idx ->
+      exists row,
+        slice t (redRanges dim (dims t) (ins dim 0 idx)) = Some row /\
+        dims row = map (fun i => if i =? dim then nth dim (dims t) 0 else 1) (seq 0 (length (dims t))) /\
+        wf row /\
+        map Some (flat (data row))
+          = map (fun k => get (data t) (firstn dim idx ++ k :: skipn dim idx)) (seq 0 (nth dim (dims t) 0)) /\
+        get (data r) idx = reduce rd row /\
+        get (data r) idx = Some (redL rd (flat (data row))).
+Proof.
+  unfold reduceAlong.
+  rewrite (initWith_spec A (list nat) (redGen rd dim t) (fun s => Sc (redOut s)) next redInv
+             redGen_step redInv_next sds (linInit ds) redInv_init).
+  cbn [obind]. eexists; split; [reflexivity|]. cbn [dims data]. split; [reflexivity|].
+  rewrite (tabS_tab A (list nat) (fun s => Sc (redOut s)) next redOut (fun s => eq_refl)).
+  split.
+  - split; cbn [dims data]; [apply wfnd_tab|apply sds_pos].
+  - intros idx Hv. destruct (slice_fibre idx 0 Hv) as (row & Hs & Hd & Hwr & Hfl).
+    exists row. split; [exact Hs|]. split; [exact Hd|]. split; [exact Hwr|]. split; [exact Hfl|].
+    rewrite get_tab by exact Hv. rewrite iter_next_flatIdx by exact Hv.
+    unfold redOut. rewrite rev_involutive, Hs. cbn [obind]. rewrite (reduce_spec row Hwr). split; reflexivity.
+Qed.
+
+End Along.
+
+(* ====================================================================== *)
+(* 4. the public method                                                   *)
+(* ====================================================================== *)
+Section ApiAlong.
+Context {A : Type} {SA : Scalar A}.
+Notation T := (tensor A).
+
+Lemma validateReducedDim_iff (t : T) (dim : Z) :
+  validateReducedDimAgainstDims dim (zdims t) = true <-> (0 <= dim < Z.of_nat (length (dims t)))%Z.
+Proof.
+  unfold validateReducedDimAgainstDims, zlen, zdims. rewrite map_length, andb_true_iff, Z.leb_le, Z.ltb_lt.
+  tauto.
+Qed.
+
+(* never None on a well-formed operand and a dimension in range *)
+Corollary reduceAlong_shape rd (t : T) dim : wf t -> dim < length (dims t) ->
+  exists r, reduceAlong rd t dim = Some r /\ dims r = squeezeDims dim (dims t) /\ wf r.
+Proof.
+  intros Hw Hd. destruct (reduceAlong_spec rd t dim Hw Hd) as (r & H1 & H2 & H3 & _).
+  exists r. auto.
+Qed.
+
+Theorem v_reduceAlong_spec rd (t : T) (dim : Z) : wf t ->
+  ((0 <= dim < Z.of_nat (length (dims t)))%Z ->
+     exists r, v_reduceAlong rd t dim = Ok r /\ reduceAlong rd t (Z.to_nat dim) = Some r /\
+               dims r = squeezeDims (Z.to_nat dim) (dims t) /\ wf r) /\
+  (~ (0 <= dim < Z.of_nat (length (dims t)))%Z -> v_reduceAlong rd t dim = Err).
+Proof.
+  intros Hw. unfold v_reduceAlong, guard. split.
+  - intros Hd. rewrite (proj2 (validateReducedDim_iff t dim) Hd).
+    destruct (reduceAlong_shape rd t (Z.to_nat dim) Hw ltac:(lia)) as (r & H1 & H2 & H3).
+    exists r. rewrite H1. auto.
+  - intros Hd. destruct (validateReducedDimAgainstDims dim (zdims t)) eqn:E; [|reflexivity].
+    apply validateReducedDim_iff in E. contradiction.
+Qed.
+
+Corollary v_reduceAlong_never_panics rd (t : T) (dim : Z) : wf t -> v_reduceAlong rd t dim <> Panic.
+Proof.
+  intros Hw. destruct (v_reduceAlong_spec rd t dim Hw) as [H1 H2].
+  destruct (Z_le_dec 0 dim) as [Ha|Ha]; [destruct (Z_lt_dec dim (Z.of_nat (length (dims t)))) as [Hb|Hb]|].
+  - destruct (H1 (conj Ha Hb)) as (r & -> & _). discriminate.
+  - rewrite H2 by lia. discriminate.
+  - rewrite H2 by lia. discriminate.
+Qed.
+
+(* user-facing form: every element of the result is the reducer applied to the
+   one-dimensional fibre of the operand, in order *)
+Theorem v_reduceAlong_elems rd (t : T) (dim : Z) : wf t -> (0 <= dim < Z.of_nat (length (dims t)))%Z ->
+  let d := Z.to_nat dim in
+  exists r, v_reduceAlong rd t dim = Ok r /\ dims r = squeezeDims d (dims t) /\ wf r /\
+    forall idx, validIdx (squeezeDims d (dims t)) idx ->
+      exists fibre,
+        map Some fibre = map (fun k => get (data t) (firstn d idx ++ k :: skipn d idx)) (seq 0 (nth d (dims t) 0)) /\
+        get (data r) idx = Some (redL rd fibre).
+Proof.
+  intros Hw Hd d. unfold v_reduceAlong, guard. rewrite (proj2 (validateReducedDim_iff t dim) Hd).
+  destruct (reduceAlong_spec rd t d Hw ltac:(unfold d; lia)) as (r & H1 & H2 & H3 & H4).
+  exists r. fold d. rewrite H1. split; [reflexivity|]. split; [exact H2|]. split; [exact H3|].
+  intros idx Hv. destruct (H4 idx Hv) as (row & _ & _ & _ & Hfl & _ & Hg).
+  exists (flat (data row)). split; assumption.
+Qed.
+
+End ApiAlong.
+
+(* ====================================================================== *)
+(* non-vacuity: a throw-away Scalar on nat                                *)
+(* ====================================================================== *)
+Module Ex.
+#[local] Instance nat_scalar : Scalar nat := {|
+  s0 := 0; s1 := 1;
+  sadd := Nat.add; ssub := Nat.sub; smul := Nat.mul; sdiv := Nat.div; spow := Nat.pow;
+  sexp := id; slog := id; ssin := id; scos := id; stan := id; ssinh := id; scosh := id; stanh := id;
+  ssqrt := Nat.sqrt;
+  smax := Nat.max; smin := Nat.min;
+  sselgt := fun a b => if b <? a then a else b;
+  ssellt := fun a b => if a <? b then a else b;
+  seqt := fun a b => if a =? b then 1 else 0;
+  snet := fun a b => if a =? b then 0 else 1;
+  sgt := fun a b => if b <? a then 1 else 0; sge := fun a b => if b <=? a then 1 else 0;
+  slt := fun a b => if a <? b then 1 else 0; sle := fun a b => if a <=? b then 1 else 0;
+  sgeb := fun a b => if b <=? a then 1 else 0;
+  strunc := id; sofnat := id;
+  sconst := fun m e => Z.to_nat m * 10 ^ Z.to_nat e;
+  sneginf := 0; sposinf := 1000;
+  srnd := fun _ k => k
+|}.
+
+Definition tex : tensor nat :=
+  mkT [2; 3] (Vec [Vec [Sc 1; Sc 2; Sc 3]; Vec [Sc 4; Sc 5; Sc 9]]).
+
+Example tex_wf : wf tex.
+Proof. split; [apply wfndb_spec; reflexivity|repeat constructor]. Qed.
+
+Example ex_whole :
+  r_sum tex = Some 24 /\ r_max tex = Some 9 /\ r_min tex = Some 1 /\ r_mean tex = Some 4 /\
+  r_var tex = Some 5 /\ r_std tex = Some 2 /\
+  flat (data tex) = [1; 2; 3; 4; 5; 9].
+Proof. vm_compute. repeat split. Qed.
+
+Example ex_single : wf (mkT [1; 1] (Vec [Vec [Sc 7]])) /\ r_var (mkT [1; 1] (Vec [Vec [Sc 7]])) = Some 0.
+Proof. split; [split; [apply wfndb_spec; reflexivity|repeat constructor]|reflexivity]. Qed.
+
+Example ex_along :
+  reduceAlong RdSum tex 0 = Some (mkT [3] (Vec [Sc 5; Sc 7; Sc 12])) /\
+  reduceAlong RdSum tex 1 = Some (mkT [2] (Vec [Sc 6; Sc 18])) /\
+  reduceAlong RdMax tex 1 = Some (mkT [2] (Vec [Sc 3; Sc 9])) /\
+  reduceAlong RdVar tex 1 = Some (mkT [2] (Vec [Sc 0; Sc 4])) /\
+  slice tex (redRanges 0 [2; 3] (ins 0 0 [2])) = Some (mkT [2; 1] (Vec [Vec [Sc 3]; Vec [Sc 9]])) /\
+  v_reduceAlong RdSum tex 1 = Ok (mkT [2] (Vec [Sc 6; Sc 18])) /\
+  v_reduceAlong RdSum tex 2 = Err /\ v_reduceAlong RdSum tex (-1) = Err.
+Proof. vm_compute. repeat split. Qed.
+
+(* the theorem instantiated: hypotheses satisfiable, conclusion non-trivial *)
+Example ex_spec_inst :
+  exists r, v_reduceAlong RdSum tex 1 = Ok r /\ get (data r) [1] = Some (fold_left Nat.add [4; 5; 9] 0).
+Proof.
+  destruct (v_reduceAlong_elems RdSum tex 1 tex_wf ltac:(cbn; lia)) as (r & H1 & _ & _ & H4).
+  exists r. split; [exact H1|]. destruct (H4 [1] ltac:(repeat constructor)) as (fibre & Hf & Hg).
+  rewrite Hg. cbn in Hf. destruct fibre as [|a [|b [|c [|? ?]]]]; try discriminate.
+  inversion Hf; subst. reflexivity.
+Qed.
+End Ex.
+
+Print Assumptions trav_spec.
+Print Assumptions reduce_spec.
+Print Assumptions r_var_spec.
+Print Assumptions v_reduce_total.
+Print Assumptions reduceAlong_spec.
+Print Assumptions v_reduceAlong_spec.
+Print Assumptions v_reduceAlong_elems.
